@@ -96,3 +96,6 @@ package controllers
 //@   ensures [own_certs] result1 == nil && len(clientHello.ServerName) != 0 && old(helloC) != nil && old(helloHasTLS) && len(old(helloP.certs)) > 0 ==> result != nil && result.Certificates == old(helloP.certs) && result.GetCertificate == nil && result.GetConfigForClient == nil
 //@   ensures [fresh_copy] result1 == nil && len(clientHello.ServerName) != 0 && old(helloC) != nil && old(helloHasTLS) ==> fresh(result)
 //@   ensures [unknown_gets_base] len(clientHello.ServerName) != 0 && (old(helloC) == nil || !old(helloHasTLS)) ==> result == baseCfg(getConfigFunc, clientHello)
+
+//@ func (*UpstreamClusterController).Run props C10
+//@   modifies *
